@@ -1018,3 +1018,69 @@ Qed.
 
 Print Assumptions x86_load_walk_ok.
 Print Assumptions x86_load_ok.
+
+(* ---------- the hypotheses are satisfiable: a shared two-block object with five fields, its pointer and
+   all loaded variables in spill slots (six variables before it), TEMPORARY_TEMP evacuated and restored ---------- *)
+Definition ex6_existing : ctx := map (fun i => mkb ("v"%string, i) Ext I64) [0; 1; 2; 3; 4; 5]%N.
+Definition ex6_state : xstate :=
+  let r := rset (rset (rset (rset (init_state []) 0 (Some ex_sp)) HEAP (Some (HEAP_BASE + 192))) FREE (Some (HEAP_BASE + 256))) 4 (Some 777) in
+  let st := sset r ex_sp 1 (Some HEAP_BASE) in
+  fold_left (fun s (az : Z * Z) => hset s (HEAP_BASE + fst az) (snd az))
+            [(0, 1); (24, 11); (32, HEAP_BASE + 128); (40, 22); (48, HEAP_BASE + 64); (64 + 24, 33); (64 + 40, 44); (64 + 56, 55)] st.
+Definition ex6_code : list xcode := match x_load ex5_store ex6_existing 0 with Ok (cs, _) => cs | Err _ => [] end.
+
+Example x86_load_example :
+  exists lc', x_load ex5_store ex6_existing 0 = Ok (ex6_code, lc') /\
+  exists s', steps (mk_image ex6_code) 1 ex6_state (pnth 1 (List.length ex6_code)) s' /\
+     st_eqB (abs_heap (HEAP_BASE + 256) s') (Heap.load_object 1 HEAP_BASE (abs_heap (HEAP_BASE + 256) ex6_state)) /\
+     sget s' ex_sp 2 = Some 11 /\ sget s' ex_sp 3 = Some (HEAP_BASE + 128) /\ sget s' ex_sp 10 = Some 55 /\
+     rget s' 4%N = Some 777.
+Proof.
+  assert (Hx : exists lc', x_load ex5_store ex6_existing 0 = Ok (ex6_code, lc')) by (eexists; vm_compute; reflexivity).
+  destruct Hx as [lc' Hx]. exists lc'. split; [exact Hx|].
+  destruct (mk_image_code_labels ex6_code) as [HC HL]; [apply nodupb_sound; vm_compute; reflexivity|].
+  assert (Bk : forall k, 0 <= k <= 4 -> is_blk (HEAP_BASE + 64 * k)).
+  { intros k Hk. exists k. split; [lia|]. split; [reflexivity|]. unfold HEAP_BASE, HEAP_SIZE. lia. }
+  assert (W : forall o, hword ex6_state (HEAP_BASE + o) =
+     if o =? 120 then 55 else if o =? 104 then 44 else if o =? 88 then 33 else if o =? 48 then HEAP_BASE + 64 else
+     if o =? 40 then 22 else if o =? 32 then HEAP_BASE + 128 else if o =? 24 then 11 else if o =? 0 then 1 else 0).
+  { intros o. unfold ex6_state. cbn [fold_left fst snd]. rewrite !hword_hset by (vm_compute; reflexivity).
+    rewrite hword_sset, !hword_rset. replace (hword (init_state []) (HEAP_BASE + o)) with 0 by (unfold hword, init_state; cbn [heap]; now rewrite PM.gempty).
+    unfold HEAP_BASE.
+    repeat match goal with |- context [?a =? ?b] => destruct (Z.eqb_spec a b); try lia end; reflexivity. }
+  destruct (x86_load_ok (mk_image ex6_code) 1 ex5_store ex6_existing 0 ex6_code lc' ex6_state ex_sp HEAP_BASE (HEAP_BASE + 192) (HEAP_BASE + 256) Hx ltac:(discriminate) HC HL)
+    as (s' & ST & EQ & V & O & _).
+  - split; [vm_compute; reflexivity|]. repeat split; vm_compute; easy.
+  - vm_compute; reflexivity.
+  - exact (Bk 0 ltac:(lia)).
+  - vm_compute; reflexivity.
+  - unfold ex5_store. cbn [lf_share_ok List.length]. change (3 - bp_n Last)%N with 3%N. change (3 - bp_n Other)%N with 2%N.
+    change (rest_len 5 3) with 2%nat. cbn [firstn skipn List.length]. change (rest_len 2 2) with 0%nat. cbn [firstn skipn List.length lf_ptr].
+    change (rest_len 2 (3 - bp_n Other)) with 0%nat. cbn [firstn lf_ptr].
+    replace (hword ex6_state (HEAP_BASE + 48)) with (HEAP_BASE + 64 * 1) by (rewrite W; reflexivity).
+    split; [split; [exact I|]|].
+    + split; [exact (Bk 0 ltac:(lia))|]. split; [|split].
+      * intros j Hj. assert (Hc : (j = 0 \/ j = 1)%N) by lia. destruct Hc as [-> | ->]; rewrite ?fo_F0, ?fo_F1, W; cbn; auto.
+        right. exact (Bk 2 ltac:(lia)).
+      * intros j Hj. cbn in Hj. lia.
+      * intros i b Hi Hb. destruct i as [|[|i]]; cbn in Hi; try (destruct i; discriminate); inversion Hi; subst b; cbn in Hb; try discriminate.
+        change (hword ex6_state (HEAP_BASE + 16) = 0). rewrite W. reflexivity.
+    + split; [exact (Bk 1 ltac:(lia))|]. split; [|split].
+      * intros j Hj. assert (Hc : (j = 0 \/ j = 1 \/ j = 2)%N) by lia.
+        destruct Hc as [->|[->| ->]]; rewrite ?fo_F0, ?fo_F1, ?fo_F2, <- Z.add_assoc, W; cbn; auto.
+      * intros j Hj. cbn in Hj. lia.
+      * intros i b Hi Hb. destruct i as [|[|[|i]]]; cbn in Hi; try (destruct i; discriminate); inversion Hi; subst b; cbn in Hb; try discriminate;
+          first [change (hword ex6_state (HEAP_BASE + (64 * 1 + 16)) = 0)|change (hword ex6_state (HEAP_BASE + (64 * 1 + 48)) = 0)]; rewrite W; reflexivity.
+  - intros x Hx'. destruct Hx' as (k & Hk & -> & Hhi). replace (HEAP_BASE + 64 * k) with (HEAP_BASE + (64 * k)) by lia. rewrite W.
+    cbn [List.length ex5_store]. unfold min_int, max_int, two63, HEAP_BASE.
+    repeat match goal with |- context [?a =? ?b] => destruct (Z.eqb_spec a b) end; lia.
+  - exists s'. split; [exact ST|]. split; [exact EQ|].
+    destruct (V 0%nat _ eq_refl) as [V0 _]. destruct (V 1%nat _ eq_refl) as [_ V1]. destruct (V 4%nat _ eq_refl) as [V4 _].
+    specialize (V1 ltac:(discriminate)). specialize (O 0%N ltac:(cbn; lia)).
+    split; [|split; [|split]].
+    + etransitivity; [exact V0|]. vm_compute; reflexivity.
+    + etransitivity; [exact V1|]. vm_compute; reflexivity.
+    + etransitivity; [exact V4|]. vm_compute; reflexivity.
+    + etransitivity; [exact O|]. vm_compute. reflexivity.
+Qed.
+Print Assumptions x86_load_example.
